@@ -355,15 +355,9 @@ func (r *sessRunner) history(n int, h sessHist) []sessEvent {
 	if src == "ass" {
 		src = "ssa"
 	}
-	// every second history whose operations depend on the shape of the list takes a document with touching
-	// same-text cues / cues out of order / overlapping cues
-	shaped := false
-	for _, op := range h.Ops {
-		switch op.Name {
-		case "unfragment", "order", "fragment", "merge":
-			shaped = true
-		}
-	}
+	// every second history with operations takes a document with touching same-text cues / cues out of order /
+	// overlapping cues (what an operation does - or must leave alone - shows on such lists)
+	shaped := len(h.Ops) > 0
 	if shaped && n%2 == 0 && len(r.docs[src+"-synth"]) > 0 {
 		src += "-synth"
 	}
